@@ -188,10 +188,21 @@ def simulate(chk, label, prelude, kinds, maxh, num, rng_seed, maxitems=2, rollba
     r = tlc_run(chk, label, prelude, kinds, maxh + 5, maxitems, rollbacks, span=span, emit="EmitLast", workers=1,
                 simulate="num=%d" % num, depth=simlen + 1, simlen=simlen, invariants=False, seed=rng_seed, timeout=1500)
     behs, st = vf.behaviours(r, limit=None)
+    # in simulation mode TLC evaluates the action constraint for every candidate successor of the last
+    # state: one simulated trace is printed with each possible last step; two of them are kept
+    seen = {}
+    keep = []
+    for b in behs:
+        k = json.dumps(b[:-1], sort_keys=True)
+        seen[k] = seen.get(k, 0) + 1
+        if seen[k] <= 2:
+            keep.append(b)
+    st["traces"] = len(seen)
+    st["selected"] = len(keep)
     st.pop("classes", None)
     st["label"] = label
     chk.cov.setdefault("extraction", []).append(st)
-    return behs, replay(chk, behs, prelude, label, span=span)
+    return keep, replay(chk, keep, prelude, label, span=span)
 
 
 ASSUMPTIONS = [
